@@ -9,7 +9,9 @@ EXPLANATION = (
     "with the measure the admission test uses; (R4) a non-zero busy time sets busy-until T and schedules the unbusy notification at "
     "the same T = now + calculate_busy, the exit event is scheduled on every idle path at now + calculate_duration; (R5) unbusy "
     "clears busy, dequeues FIFO and returns only with the queue observed empty or the channel busy again; (R6) calculate_duration "
-    "= latency + calculate_busy (+ Uniform(0, jitter) from the passed RNG); (R7) calculate_busy has the shape (length*8)/bitrate divided in floating point, zero for bitrate 0. Decides these necessary conditions only; not numeric "
+    "= latency + calculate_busy (+ Uniform(0, jitter) from the passed RNG); (R7) calculate_busy has the shape (length*8)/bitrate divided in floating point, zero for bitrate 0. "
+    '(R8) a channel is created idle with an empty queue and a zero byte counter. '
+    "Decides these necessary conditions only; not numeric "
     "delays or behaviour over traffic patterns.")
 ASSUMPTIONS = ["VecDeque::push_back/pop_front are opposite ends", "a scheduled event is delivered (C01/C02)"]
 
